@@ -12,6 +12,10 @@ import (
 // evalInclude processes a <template include="..."> tag with the given vars map.
 // Handles stack push/pop properly using defer to ensure cleanup even on error.
 func (v *Vue) evalInclude(ctx VueContext, node *html.Node, vars map[string]any, depth int) ([]*html.Node, error) {
+	if depth > maxEvalDepth {
+		return nil, fmt.Errorf("in %s: nesting depth exceeded maximum of %d, possible circular include", ctx.FromFilename, maxEvalDepth)
+	}
+
 	ctx.stack.Push(vars)
 	defer ctx.stack.Pop()
 
